@@ -28,7 +28,8 @@ ODE_PRINT = [OP + n for n in ("_print_Relational", "_print_And", "_print_Or", "_
     + ["frame:gotranx.codegen.ode.BaseGotranODECodePrinter"]
 PY_TMPL = [TP + n for n in ("state_index", "parameter_index", "monitor_index", "missing_index", "init_state_values",
                             "init_parameter_values", "method")]
-C_TMPL = [TC + n for n in ("state_index", "parameter_index", "monitor_index", "missing_index", "method")]
+C_TMPL = [TC + n for n in ("state_index", "parameter_index", "monitor_index", "missing_index", "method", "init_state_values", "init_parameter_values")]
+J_TMPL = [TJ + n for n in ("method", "init_state_values", "init_parameter_values")]
 ARGS = [PYG + "_rhs_arguments", PYG + "_scheme_arguments", CG + "_rhs_arguments", CG + "_scheme_arguments"]
 
 PROPS = {
@@ -37,12 +38,12 @@ PROPS = {
                            PP + "_print_Float", "gotranx.codegen.c.GotranCCodePrinter._print_Piecewise",
                            "gotranx.codegen.c.GotranCCodePrinter._print_Float", "gotranx.codegen.c.bool_to_int",
                            "frame:gotranx.codegen.c.GotranCCodePrinter"] + C_TMPL, lemmas=[]),
-    "C03": dict(functions=[B + "monitor_values", B + "missing_values", B + "rhs", B + "scheme", TJ + "method",
+    "C03": dict(functions=[B + "monitor_values", B + "missing_values", B + "rhs", B + "scheme"] + J_TMPL + [
                            PP + "_print_And", PP + "_print_Or", PP + "_print_Not", PP + "_print_sign",
                            "gotranx.codegen.jax.JaxPrinter._print_Assignment", "frame:gotranx.codegen.jax.JaxPrinter",
                            "frame:gotranx.codegen.python.GotranPythonCodePrinter"], lemmas=L.C13L),
     "C04": dict(functions=INDEX + [B + "rhs", B + "monitor_values", B + "scheme"] + SCHEMES + SORTED + ACCESSORS + UNPACK + ARGS
-                + PY_TMPL + C_TMPL + [TJ + "method", T + "states_matrix"], lemmas=L.L1 + L.STAB),
+                + PY_TMPL + C_TMPL + J_TMPL + [T + "states_matrix"], lemmas=L.L1 + L.STAB + L.L3[:6]),
     "C05": dict(functions=[S + "explicit_euler", S + "get_scheme", B + "scheme", U + "add_schemes"] + UNPACK + SORTED, lemmas=L.L1 + L.STAB + L.L3[6:]),
     "C06": dict(functions=[S + "generalized_rush_larsen", S + "fraction_numerator_is_nonzero", T + "Conditional", S + "get_scheme",
                            B + "scheme", U + "add_schemes"] + SORTED, lemmas=L.STAB + L.C06L),
